@@ -164,6 +164,35 @@ pub fn check_one(
             );
         }
     }
+    // The same bytes at another base address (the allocator hands out
+    // 16-byte-aligned haystacks; vector code must not care): the haystack is
+    // copied to an offset 1..63 of a scratch buffer and searched there. For
+    // full spans through `find`, the twin of `find_in`.
+    {
+        let k = 1 + (hay.len() * 7 + span.0 * 3 + span.1) % 63;
+        let mut scratch = vec![0xA5u8; hay.len() + 64];
+        scratch[k..k + hay.len()].copy_from_slice(hay);
+        let moved = &scratch[k..k + hay.len()];
+        let full = span == (0, hay.len());
+        let got2 = guard(|| {
+            if full {
+                s.find(moved).map(pm)
+            } else {
+                s.find_in(moved, Span { start: span.0, end: span.1 }).map(pm)
+            }
+        });
+        rep.eval();
+        rep.tally("searches_at_shifted_base_address");
+        match got2 {
+            Err(p) => rep.violation(&sig("panic_at_shifted_base"), format!("search panicked with the haystack at base offset {}: {}", k, p), case_json(pats, kind, v, hay, span, "find_in")),
+            Ok(g) if g == exp => {}
+            Ok(g) => rep.violation(
+                &sig("differs_at_shifted_base"),
+                format!("{} returned {:?} with the haystack placed {} bytes into a buffer, leftmost definition gives {:?} ({} mask {})", if full { "find" } else { "find_in" }, g, k, exp, imp, mask_len),
+                case_json(pats, kind, v, hay, span, "find_in").with("observed", om_json(g)).with("expected", om_json(exp)).with("base_offset", J::i(k)),
+            ),
+        }
+    }
     // the iterator (whole haystack) once per haystack: when the span is full
     if span == (0, hay.len()) {
         let exp_it = o.iter(hay, 0, hay.len(), false);
